@@ -233,9 +233,15 @@ func VerifC18_ETrace() {
 		"(defun g (y) (error 'deep y)) (defun h (y) (+ 1 (g y))) (h 2)",
 		"(defun g (y) (car y)) (defun h (y) (list (g y))) (defun k () (h 5)) (k)",
 		"(defun g (y) (error 'deep y)) (defun h (y) (+ 1 (g y))) (handler-bind ((deep (lambda (c &rest a) (rethrow)))) (h 2))",
+		// errors the evaluator raises itself (no builtin frame): an unbound symbol, plain and
+		// package-qualified, in value position of the innermost call
+		"(defun g (y) (if y nope 1)) (defun h (y) (+ 1 (g y))) (h 2)",
+		"(defun g (y) (if y user:nope 1)) (defun h (y) (+ 1 (g y))) (h 2)",
+		"(defun g (y) (let ((z user:nope)) z)) (defun h (y) (list (g y))) (defun k () (h 5)) (k)",
+		"(defun g (y) (progn 1 user:nope)) (defun h (y) (+ 1 (g y))) (handler-bind ((condition (lambda (c &rest a) (rethrow)))) (h 2))",
 	}
 	// active user calls innermost first (the raising builtin itself is frame 0)
-	chains := [][]string{{"g", "h"}, {"g", "h", "k"}, {"g", "h"}}
+	chains := [][]string{{"g", "h"}, {"g", "h", "k"}, {"g", "h"}, {"g", "h"}, {"g", "h"}, {"g", "h", "k"}, {"g", "h"}}
 	si := vndChoice("src", len(srcs))
 	exprs, nodes, locs := c18Prepare(srcs[si])
 	env := newEnv(nil)
@@ -254,6 +260,15 @@ func VerifC18_ETrace() {
 		}
 	}
 	vAssert(sameStrings(names, chains[si]), "the trace lists the active calls innermost first: "+strings.Join(names, " "))
+	if si >= 3 {
+		// every call that was active, operators included, innermost first
+		full := [][]string{nil, nil, nil, {"if", "g", "h"}, {"if", "g", "h"}, {"let", "g", "h", "k"}, {"progn", "g", "h", "handler-bind"}}[si]
+		var all []string
+		for i := len(st.Frames) - 1; i >= 0; i-- {
+			all = append(all, st.Frames[i].Name)
+		}
+		vAssert(sameStrings(all, full), "the trace lists the function AND operator calls that were active when the error was raised: "+strings.Join(all, " "))
+	}
 	for i, nm := range names {
 		// call site = the call expression (nm ...) that is NOT the defun head
 		var call *lisp.LVal
@@ -266,7 +281,9 @@ func VerifC18_ETrace() {
 		vAssert(sites[i].Pos == locs[call].Pos, "each frame records the position of its call site")
 	}
 	top := st.Frames[len(st.Frames)-1]
-	vAssert(top.Name == "error" || top.Name == "car", "the raising builtin is the innermost frame")
+	if si < 3 {
+		vAssert(top.Name == "error" || top.Name == "car", "the raising builtin is the innermost frame")
+	}
 	cleanRuntime(env, "user")
 	vCover("end")
 }
